@@ -2,7 +2,7 @@
 and dictionary compression is decoded by the independent Lean decoder (Model/Frame.lean) and its decode trace is checked by
 Conform.checkFrame: content-size / checksum / reserved bits, block-size limit, window rule per sequence, interop rules."""
 import hashlib
-import build, zv, frames, datagen
+import build, zv, frames, datagen, dictgen
 from props import c01
 
 ASSUMPTIONS = ["the independent decoder + Conform predicate are the oracle for 'valid frame under the specification' (they accept exactly what Model/Frame.lean accepts in strict mode)",
@@ -40,6 +40,10 @@ def gen_cases(ctx):
         elif k == 3 and i % 10 == 3:
             x = rng.choice([datagen.noisecopies, datagen.blockstruct])(rng, rng.choice([131072, 200000, 262144])); p = {100: rng.choice([16, 17, 18, 19])}; mode = "c2"
             if rng.random() < 0.4: p[130] = 1340
+        elif k == 4 and i % 10 == 4:
+            # formatted dictionary whose offset-code table covers exactly the codes the first block can need; the frame starts with
+            # incompressible or constant blocks and later reaches back to the start of the dictionary (offset codes beyond the table)
+            cases.append(dictof_case(rng)); continue
         else:
             kind, x = datagen.gen(rng, 60000); p = frames.param_vector(rng, True, allow_fmt=False); mode = "c2"
         d = b""
@@ -52,6 +56,30 @@ def gen_cases(ctx):
             if rng.random() < 0.3: p[500] = 1
         cases.append(dict(mode=mode, p=p, x=x, d=d))
     return cases
+
+
+def dictof_case(rng):
+    content = datagen.randbytes(rng, rng.choice([60000, 100000, 120000, 126000]))
+    d, _ = dictgen.build_exact_of(rng, content)
+    x = bytearray()
+    for _ in range(rng.choice([1, 2, 2, 3])):
+        x += datagen.randbytes(rng, 131072) if rng.random() < 0.7 else bytes([rng.randrange(256)]) * 131072
+    if rng.random() < 0.3:
+        x = x[:len(x) - rng.randint(0, 60000)]
+    tail = rng.choice([131072, 131072, 200000])
+    end = len(x) + tail
+    while len(x) < end:
+        st = rng.randrange(0, min(len(content), 50000)); ln = rng.choice([300, 2000, 2000, 5000])
+        x += content[st:st + ln] + datagen.randbytes(rng, rng.choice([8, 40, 200]))
+        if rng.random() < 0.2 and len(x) > 300:
+            b = rng.randrange(len(x) - 200); x += x[b:b + rng.randint(5, 150)]
+    x = bytes(x[:end])
+    p = {100: rng.choice([1, 1, 2, 3, 4, 5])}
+    if rng.random() < 0.3: p[101] = rng.choice([19, 20, 21])
+    if rng.random() < 0.2: p[201] = 1
+    mode = rng.choice(["c2", "c2", "stream"])
+    if rng.random() < 0.3: p[1001] = rng.choice([1, 2])       # forceAttachDict / forceCopy
+    return dict(mode=mode, p=p, x=x, d=d)
 
 
 def line_for(rng, c):
